@@ -30,6 +30,21 @@ def union_program(rng):
             "def y: Int? := None\n")
 
 
+def generic_union_programs():
+    """unions whose members share a class and differ only in their generic arguments, written and inferred, in every
+    place where a type is rendered into the output (annotations of definitions, parameters, returns)"""
+    out = []
+    for a, b, va, vb in (("List[Int]", "List[Str]", "[1, 2]", "[\"a\"]"), ("Set[Int]", "Set[Str]", "{1, 2}", "{\"a\"}"), ("List[Int]", "List[Bool]", "[1]", "[True]"),
+                         ("List[Str]", "Set[Str]", "[\"a\"]", "{\"a\"}"), ("(Int, Str)", "(Str, Int)", "(1, \"a\")", "(\"a\", 1)")):
+        out.append("def pick(c: Bool) -> {%s, %s} =>\n    if c then %s else %s\ndef x: {%s, %s} := pick(True)\nprint(x)\n" % (a, b, va, vb, a, b))
+        out.append("def take(p: {%s, %s}) -> Int => 1\ndef r := take(%s)\n" % (b, a, va))
+        out.append("def c := True\ndef x := if c then %s else %s\nprint(x)\n" % (va, vb))
+        out.append("class H\n    def f: {%s, %s} := %s\ndef o := H()\n" % (a, b, vb))
+    out.append("def x: {List[Int], List[Str], List[Bool], Set[Int]} := [1]\n")
+    out.append("def x: {List[{Int, Str}], List[{Str, Bool}]} := [1]\n")
+    return out
+
+
 def hierarchy_program(rng):
     """class hierarchies whose members collide by name: fields and methods re-declared at other types down the chain,
     two parents declaring the same member, followed by uses whose verdict depends on WHICH declaration is found"""
@@ -109,6 +124,7 @@ def run(chk):
     progs += (acc if thorough else rng.sample(acc, min(len(acc), 15)))
     progs += [gen_prog.Gen(rng).program().text for _ in range(40 if thorough else 6)]
     progs += [hierarchy_program(rng) for _ in range(150 if thorough else 40)]
+    progs += generic_union_programs()
     K, P = (12, 6) if thorough else (4, 3)
     ids = []
     for i, t in enumerate(progs):
